@@ -55,6 +55,28 @@ def gen_tree(rng, depth=0):
     return nodes
 
 
+def derived_patterns(rng, nodes):
+    """exclusions aimed at paths that exist in this tree (so that every pattern class actually bites)"""
+    files = [comps for comps, _ in walk_expected(nodes)]
+    out = []
+    if files and rng.random() < 0.6:
+        for comps in rng.sample(files, min(len(files), rng.choice([1, 2]))):
+            k = rng.random()
+            if k < 0.25 and len(comps) > 1:
+                out.append("/".join(comps))                      # anchored path of a file
+            elif k < 0.45 and len(comps) > 1:
+                out.append(comps[0] + "/*")                      # everything beneath a root-level directory
+            elif k < 0.6 and len(comps) > 1:
+                out.append("/" + comps[rng.randrange(len(comps) - 1)])   # root-anchored name that also occurs deeper
+            elif k < 0.75 and len(comps) > 1:
+                out.append(comps[-2] + "/")                      # directory-only
+            elif k < 0.9 and "." in comps[-1].strip("."):
+                out.append("*." + comps[-1].rsplit(".", 1)[1])
+            else:
+                out.append(comps[-1])                            # bare file name
+    return [p for p in out if not any(ch in p for ch in "[]?!\\#") and " " not in p.strip() or p in PATTERN_POOL]
+
+
 def write_tree(root, nodes, table):
     for kind, nm, x in nodes:
         p = os.path.join(root, nm)
@@ -121,14 +143,14 @@ def run(tier, seed, replay=None):
     tmp = tempfile.mkdtemp(prefix="verif_c11_")
     old_cwd = os.getcwd()
     try:
-        for ci in range(120 if tier == "quick" else 5000):
+        for ci in range(200 if tier == "quick" else 5000):
             nodes = gen_tree(rng)
             top = os.path.join(tmp, f"t{ci}")
             root = os.path.join(top, "outer", "proj")
             os.makedirs(root)
             table = {}
             write_tree(root, nodes, table)
-            cfg = rng.sample(PATTERN_POOL, rng.choice([0, 0, 1, 2, 3]))
+            cfg = rng.sample(PATTERN_POOL, rng.choice([0, 0, 1, 2, 3])) + derived_patterns(rng, nodes)
             gi = rng.sample(PATTERN_POOL, rng.choice([0, 0, 1, 2]))
             if gi or rng.random() < 0.2:
                 with open(os.path.join(root, ".gitignore"), "w") as f:
